@@ -154,7 +154,7 @@ fn check_command(d: &Decl, path: &[String], v: &VariantM, body: &[&str]) -> Vec<
         }
     }
     if let Some(s) = &v.sub {
-        for sv in &d.enums[&s.enum_id].variants {
+        for sv in d.sub_variants(&s.enum_id, true) {
             let lines: Vec<&&str> = body.iter().filter(|l| is_list_line(l) && first_word(l) == sv.name).collect();
             if lines.len() != 1 {
                 errs.push(format!("sub-command {:?} is listed {} times", sv.name, lines.len()));
@@ -263,7 +263,9 @@ fn all_paths(d: &Decl, eid: &str, prefix: Vec<String>, out: &mut Vec<Vec<String>
         p.push(v.name.clone());
         out.push(p.clone());
         if let Some(s) = &v.sub {
-            all_paths(d, &s.enum_id, p, out);
+            for (eid, _, _) in d.sub_members(&s.enum_id) {
+                all_paths(d, &eid, p.clone(), out);
+            }
         }
     }
 }
